@@ -80,11 +80,13 @@ fn expected_reply(c: &CallSpec) -> Option<Value> {
     }
 }
 
-fn stream_item(k: u32, i: usize, continues: bool) -> (zlink_core::Reply<simnet::svc::Out>, Value) {
+/// Item `i` of stream `k` with the `continues` flag the service gives it: `Some(true)`,
+/// `Some(false)` or none at all - the server passes on whatever the service chose.
+fn stream_item(k: u32, i: usize, continues: Option<bool>) -> (zlink_core::Reply<simnet::svc::Out>, Value) {
     let out = simnet::svc::Out { n: k * 10 + i as u32, tag: format!("item-{k}-{i}") };
-    let r = zlink_core::Reply::new(Some(out.clone())).set_continues(Some(continues));
+    let r = zlink_core::Reply::new(Some(out.clone())).set_continues(continues);
     let mut v = json!({"parameters": {"n": out.n, "tag": out.tag}});
-    if continues {
+    if continues == Some(true) {
         v["continues"] = json!(true);
     }
     (r, v)
@@ -313,10 +315,22 @@ impl<'a> Sim<'a> {
         let idx = s.produced as usize;
         s.produced += 1;
         let last = s.produced == s.items;
-        let continues = !(last && s.ends);
+        // the last item of a stream that then ends says so; of the items before it, the first one of
+        // every other stream carries `continues: false` and the second one no flag at all, although
+        // more items follow (an end-of-batch marker): the flag is the service's business
+        let continues = if last && s.ends {
+            Some(false)
+        } else if !last && k % 2 == 1 && idx == 0 {
+            self.cx.goal("non-final-item-flagged-continues-false");
+            Some(false)
+        } else if !last && k % 2 == 0 && idx == 1 {
+            None
+        } else {
+            Some(true)
+        };
         let (item, v) = stream_item(k, idx, continues);
         let conn = s.conn;
-        self.cx.log(|| format!("event: stream {k} (conn {conn}) produces item {idx} (continues={continues})"));
+        self.cx.log(|| format!("event: stream {k} (conn {conn}) produces item {idx} (continues={continues:?})"));
         h.produce(item);
         self.conns[conn].expected.push(v);
     }
@@ -913,7 +927,7 @@ pub fn run_c10(tier: Tier) -> i32 {
         tier,
         RULE,
         a,
-        &["stream-item", "stream-ends", "calls-pipelined-behind-streaming-call", "stream-ends-with-calls-queued-behind", "other-client-calls-while-stream-open", "calls-arrive-while-stream-open", "client-unwritable-mid-stream"],
+        &["stream-item", "non-final-item-flagged-continues-false", "stream-ends", "calls-pipelined-behind-streaming-call", "stream-ends-with-calls-queued-behind", "other-client-calls-while-stream-open", "calls-arrive-while-stream-open", "client-unwritable-mid-stream"],
         plan,
     )
 }
